@@ -24,6 +24,7 @@ class BotConn:
         self.errors = []
         self.next_id = 0
         self.raw_in = 0
+        self.held = []                  # GetData requests a slow peer has not answered yet
 
     def frame(self, message, in_response_to=0, context=0, ts=None):
         from skepticoin.networking.messages import MessageHeader
@@ -46,6 +47,18 @@ class BotConn:
             serve = self.bot.b['serve'] = {'blocks': {}, 'chain': []}
         serve['blocks'][bid] = block
         self.send(M.InventoryMessage([M.InventoryItem(M.DATA_BLOCK, bid)]))
+
+    def release_held(self):
+        """Answer the GetData requests held back so far (behaviour 'hold_getdata')."""
+        from skepticoin.networking import messages as M
+        serve = self.bot.b.get('serve') or {'blocks': {}}
+        n = 0
+        for hdr, msg in self.held:
+            if msg.hash in serve['blocks']:
+                self.send(M.DataMessage(M.DATA_BLOCK, serve['blocks'][msg.hash]), in_response_to=hdr.id, context=hdr.context)
+                n += 1
+        self.held = []
+        return n
 
     def send_raw(self, data: bytes):
         self.out += data
@@ -204,6 +217,10 @@ class Bot(Task):
             c.send(M.InventoryMessage(items), in_response_to=hdr.id, context=hdr.context)
             return
         if isinstance(msg, M.GetDataMessage):
+            if self.b.get('hold_getdata'):
+                # a slow peer: the request is answered when the script says so (release_held)
+                c.held.append((hdr, msg))
+                return
             if serve is not None and msg.hash in serve['blocks']:
                 c.send(M.DataMessage(M.DATA_BLOCK, serve['blocks'][msg.hash]), in_response_to=hdr.id, context=hdr.context)
             return
